@@ -68,6 +68,9 @@ func vh_C05_mkdirall() {
 	c := vPeerClient()
 	defer vPeerDone(c)
 	err := c.MkdirAll("/a/b")
+	// like os.MkdirAll, the existence check follows symbolic links (STAT, not
+	// LSTAT): a link to a directory counts as a directory
+	vAssert(len(vAnswers) >= 1 && vAnswers[0].typ == sshFxpStat && vAnswers[0].path == "/a/b", "MkdirAll first asks STAT (following links) for the whole path, as os.MkdirAll does")
 	if err == nil {
 		vAssert(vAnswered(sshFxpStat, "/a/b", true, true) || vAnswered(sshFxpMkdir, "/a/b", true, false) || vAnswered(sshFxpLstat, "/a/b", true, true),
 			"MkdirAll succeeds only if the directory exists or its creation succeeded")
